@@ -429,7 +429,7 @@ def generate(seed, prof):
     return prog
 
 
-def revisit_program(rnd):
+def revisit_program(rnd, nac=False):
     """A structured family the random generator rarely hits: a task that the scheduler reaches more than once in
     ONE traversal (awaited by two parents, or written twice in one yield) is first found waiting for a batch;
     a sibling then flushes that batch by hand (item.value()), so the next visit finds the task runnable: it
@@ -482,6 +482,13 @@ def revisit_program(rnd):
         nodes[2]["body"] = [["read", "sv0"]]
         members = [["leaf", ["call", st("c"), 1]], ["leaf", ["call", st("c"), 2]]]
     nodes[0]["body"] = [["yield", [rnd.choice(["list", "tuple"]), members]], ["read", "sv0"], ["read", "at0"]]
+    if nac and mode == "two_parents":
+        # the second parent holds a NonAsyncContext around its await of the shared task, whose whole subtree only
+        # needed the item that was flushed by hand: nothing has to be flushed for it any more, so it must not fail
+        nodes[5]["body"] = [["yield", ["leaf", ["call", st("c"), 6]]]]
+        del nodes[6:]
+        nodes.append({"style": "asynq", "ret": "return", "body": [["yield", item(k)]]})
+        nodes[2]["body"] = [["yield", ["leaf", ["call", st("c"), 4]]], ["with", ["nonasync", "nz"], [["yield", ["tuple", [["leaf", ["shared", 0]]]]]]], ["read", "at0"]]
     for node in nodes:
         node["style"] = rnd.choice(["asynq", "asynq", "method", "proxy"])
     return {
